@@ -110,6 +110,10 @@ def run(tier):
     for pat in ([None, 1, 1, 2], [2, None, 1, 1], [1, None, None, 2], [None, None, 1, 1]):
         scs.append(dict(sid="stock[kundur/kundur_coi.xlsx|GENROU.coi=%s]" % pat, case="kundur/kundur_coi.xlsx", collate=[],
                         set_before_setup=[("GENROU", "coi", pat)]))
+    # one index column holding numbers and a string (a third centre of inertia named by a string): the borrowed speed / angle slots
+    # must still follow each generator's coi field
+    scs.append(dict(sid="stock[kundur/kundur_coi.xlsx|a COI named by a string next to numbered ones]", case="kundur/kundur_coi.xlsx", collate=[],
+                    add_before_setup=[("COI", dict(idx="COI_B"))], set_before_setup=[("GENROU", "coi", [1, 2, "COI_B", "COI_B"])], tds_init=True))
     # devices that borrow an index-valued parameter from the device they name (a ZIP / frequency-dependent load takes the bus of
     # its PQ, an area-control device the area of its bus), added in an order that is not the order of the parent table
     scs.append(dict(sid="stock[ieee14/ieee14_full.xlsx|loads and area control added out of order]", case="ieee14/ieee14_full.xlsx", collate=[],
